@@ -349,6 +349,21 @@ pub fn judge_v2(c: &Case, st: &mut Stats) -> Verdict {
             ));
         }
     }
+    // the same verdict wherever the header lies in memory: at each of the offsets 1..=7 of a read buffer
+    for k in 1..8usize {
+        let verdict = crate::engine::in_arena_at(k, x, |v| {
+            imp::v2_parse(v).ok().map(|r| (matches!(&r, Err(e) if *e == want) && r.is_complete() && !r.is_incomplete(), imp::short(&format!("{:?}", r))))
+        });
+        if let Some((false, shown)) = verdict {
+            return Err(Fail::new(
+                format!("wrong-blame:{}:v2-at-offset", c.element),
+                shape2(x),
+                "v2::Header::try_from(&buf[k..])",
+                format!("terminal Err({:?}) at buffer offset {}", want, k),
+                shown,
+            ));
+        }
+    }
     if let Ok(r) = imp::auto(x) {
         let is_ok = matches!(r, ppp::HeaderResult::V1(Ok(_)) | ppp::HeaderResult::V2(Ok(_)));
         if is_ok || !r.is_complete() {
